@@ -528,6 +528,13 @@ class Session:
                     mirror.unsettled.add(k)
         elif kind == "query":
             self.emit(op)
+        elif kind in ("clonekeep", "cloneop"):
+            # oracle-only histories (NeverFrozenTwin below): a clone that is kept, and calls made on it.  Neither changes a
+            # definition of THIS manager; a call on the clone may write the shared containers behind this manager's back,
+            # after which the pull-model oracle of C01 has nothing to say about it
+            self.emit(op)
+            if kind == "cloneop":
+                self.c01_live = False
         elif kind == "genfun":
             self._genfun(op)
             return
@@ -1141,6 +1148,609 @@ def c17_corpus():
                   {"op": "freeze"}, {"op": "set", "path": X, "value": 5}, {"op": "unfreeze"}]
 
 
+# ----------------------------------------------------------------------------
+# C17 on whole histories: the never-frozen twin, with clones that are KEPT (oracle only: the model drops its clones)
+# ----------------------------------------------------------------------------
+def manager_view(im, m, paths):
+    """what a user can see of manager `m` (the ImplMgr's own manager or a clone kept from it): definitions, the four index
+    tables, the answers of find_deps / find_taskids / the writers of every location, and whether verify() passes"""
+    import io, contextlib
+    saved = im.m
+    im.m = m
+    try:
+        out = {"definitions": ml.canon_defs(im.defs_json()), "indices": ml.canon_sup(im.sup_json())}
+    finally:
+        im.m = saved
+    answers = {}
+    for p in paths:
+        try:
+            r = im.ref(p)
+        except Exception:
+            continue
+        row = []
+        for ask in (lambda: m.find_deps([r]), lambda: m.find_taskids(r._get_dependencies()), lambda: list(m.tartasks.get(r, ()))):
+            try:
+                row.append(sorted(pkey(ml.id_json(x)) for x in ask()))
+            except Exception as e:
+                row.append("raises " + type(e).__name__)
+        answers[pkey(p)] = row
+    out["query answers (find_deps, find_taskids, writers)"] = answers
+    try:
+        with contextlib.redirect_stdout(io.StringIO()):
+            m.verify()
+        out["verify()"] = "ok"
+    except Exception as e:
+        out["verify()"] = "raises " + type(e).__name__
+    return out
+
+
+class NeverFrozenTwin:
+    """C17 judged on a whole history: next to the session's manager a TWIN is driven that is never frozen and receives only
+    the calls the frozen manager did not reject (freeze_tree / unfreeze_tree and every call answered with ValueError while
+    frozen are left out).  After every call the two must be indistinguishable: container contents, definitions, index
+    tables, query answers at every location, verify(), the exception class of the call — and the same for every clone
+    that was taken (frozen or not) and KEPT, on which further calls are made through the clone's own methods."""
+    KIND = "differs-from-never-frozen-twin"
+
+    def __init__(self, sess):
+        self.sess = sess
+        self.tw = ml.ImplMgr()
+        self.dead = False
+
+    def step(self, op):
+        sess = self.sess
+        was_frozen = sess.frozen
+        n0 = len(sess.lines)
+        sess.step(op)
+        if self.dead or len(sess.lines) == n0:
+            return
+        got = sess.lines[-1]["impl"]["exc"]
+        diffs = []
+        if op["op"] in ("freeze", "unfreeze"):
+            pass
+        elif was_frozen and got == "ValueError":
+            sess.stats["c17_twin_rejected_calls_left_out"] = sess.stats.get("c17_twin_rejected_calls_left_out", 0) + 1
+        else:
+            want = self.tw.apply({k: v for k, v in op.items() if not k.startswith("_")})["impl"]["exc"]
+            if got != want:
+                diffs.append(["outcome of the call", got, want])
+        self.compare(op, diffs, was_frozen)
+
+    def compare(self, op, diffs, was_frozen):
+        sess, a, b = self.sess, self.sess.im, self.tw
+        paths, seen = [], set()
+        for q in sess.P:
+            for c in chain(q):
+                if pkey(c) not in seen:
+                    seen.add(pkey(c))
+                    paths.append(c)
+        sa, sb = ml.canon_val(a.store_json()), ml.canon_val(b.store_json())
+        if sa != sb:
+            diffs.append(["container contents", leaf_diff(sa, sb)[:6], None])
+        pairs = [("the manager", a.m, b.m)]
+        ka, kb = a.__dict__.get("kept", []), b.__dict__.get("kept", [])
+        pairs += [("kept clone %d" % i, x, y) for i, (x, y) in enumerate(zip(ka, kb))]
+        for who, x, y in pairs:
+            vx, vy = manager_view(a, x, paths), manager_view(b, y, paths)
+            for key in vx:
+                if vx[key] != vy[key]:
+                    if isinstance(vx[key], dict):
+                        ks = [k for k in vx[key] if vx[key][k] != vy[key].get(k)][:3]
+                        rows = lambda mine, other: [r for r in mine if r not in other][:3] if isinstance(mine, list) and isinstance(other, list) else mine
+                        diffs.append([who + ": " + key + " (the differing rows)", {k: rows(vx[key][k], vy[key].get(k)) for k in ks},
+                                      {k: rows(vy[key].get(k), vx[key][k]) for k in ks}])
+                    else:
+                        diffs.append([who + ": " + key, vx[key] if isinstance(vx[key], str) else "differs", vy[key] if isinstance(vy[key], str) else "differs"])
+        st = sess.stats
+        st["c17_twin_comparisons"] = st.get("c17_twin_comparisons", 0) + 1
+        st["c17_twin_kept_clones_compared"] = st.get("c17_twin_kept_clones_compared", 0) + len(pairs) - 1
+        if op["op"] == "clonekeep" and was_frozen:
+            st["c17_clones_kept_while_frozen"] = st.get("c17_clones_kept_while_frozen", 0) + 1
+        if diffs:
+            self.dead = True
+            sess.fail("C17", self.KIND, {"after": {k: v for k, v in op.items() if not k.startswith("_")}, "frozen_during_the_call": was_frozen,
+                                         "differences [what, frozen-and-unfrozen manager, never-frozen twin]": diffs[:6]})
+
+
+def c17_kept_clone_corpus():
+    """a clone taken while the manager is frozen and KEPT; afterwards the graph of only one of the two managers changes
+    (through the clone's own methods, or on the original after unfreezing); then both are used again"""
+    X, Y, W_, Z, K = (["d", ["i", k]] for k in "xywzk")
+    base = [{"op": "reset"}, {"op": "container", "label": "d", "value": {"d": [["x", 1], ["y", 0], ["w", 0], ["z", 0], ["k", 3]]}},
+            {"op": "setexpr", "path": Y, "expr": ["bin", "Mul", ["ref", X], ["lit", 2]]},
+            {"op": "setexpr", "path": W_, "expr": ["bin", "Add", ["ref", Y], ["ref", K]]},
+            {"op": "setexpr", "path": Z, "expr": ["bin", "Sub", ["ref", X], ["lit", 1]]}]
+    frozen_clone = [{"op": "freeze"}, {"op": "setexpr", "path": Y, "expr": ["bin", "Mul", ["ref", X], ["lit", 5]]},
+                    {"op": "set", "path": X, "value": 2}, {"op": "clonekeep"}]
+    co = lambda call, **kw: dict({"op": "cloneop", "i": 0, "call": call}, **kw)
+    # a task dropped from the clone only, after unfreezing; then the original is assigned and loses a definition of its own
+    yield base + frozen_clone + [{"op": "unfreeze"}, co("unregister", id=Y), {"op": "set", "path": X, "value": 10},
+                                 {"op": "set", "path": Z, "value": 0}, co("set", path=X, value=4), co("verify")]
+    # the clone edited while the original is still frozen (the clone itself is not frozen); plain values on the original
+    yield base + frozen_clone + [co("set", path=Y, value=3), {"op": "set", "path": X, "value": 4}, {"op": "verify"},
+                                 {"op": "unfreeze"}, {"op": "set", "path": X, "value": 6}]
+    yield base + frozen_clone + [co("load", overwrite=True, pairs=[[Z, ["bin", "Add", ["ref", K], ["lit", 10]]]]),
+                                 {"op": "set", "path": X, "value": 5}, {"op": "set", "path": K, "value": 7}, {"op": "unfreeze"},
+                                 co("setexpr", path=W_, expr=["bin", "Sub", ["ref", Z], ["lit", 2]]),
+                                 {"op": "set", "path": X, "value": 6}, {"op": "set", "path": K, "value": 1}, co("set", path=K, value=2)]
+    # the other direction: the original changes after unfreezing, the kept clone is then used
+    yield base + frozen_clone + [{"op": "unfreeze"}, {"op": "set", "path": Y, "value": 11}, co("set", path=X, value=7),
+                                 {"op": "setexpr", "path": Z, "expr": ["bin", "Mul", ["ref", K], ["lit", 2]]}, co("set", path=K, value=5),
+                                 co("verify"), {"op": "set", "path": X, "value": 8}]
+    # two clones, one taken before the freeze and one during a second frozen period; in-place operator and unregister
+    yield base + [{"op": "clonekeep"}, {"op": "freeze"}, {"op": "set", "path": X, "value": 3}, {"op": "unfreeze"},
+                  {"op": "iop", "iop": "Add", "path": Z, "operand": ["ref", K]}, {"op": "freeze"}, {"op": "clonekeep"},
+                  {"op": "unregister", "id": W_}, {"op": "unfreeze"}, {"op": "unregister", "id": W_},
+                  {"op": "cloneop", "i": 1, "call": "unregister", "id": Z}, {"op": "cloneop", "i": 0, "call": "set", "path": X, "value": 9},
+                  {"op": "set", "path": K, "value": 4}, {"op": "set", "path": X, "value": 5}, {"op": "cloneop", "i": 1, "call": "set", "path": K, "value": 6}]
+
+
+KEPT_CLONE_MIX = dict(set=22, setexpr=20, iop=5, unregister=8, maint=6, load=5, query=2, freeze=12, clonekeep=7, cloneop=16)
+
+
+def gen_kept_clone_history(rng, twin, maxops):
+    """random branch of the same: expression tasks only; freeze / unfreeze, clones kept at any moment (most often right after
+    a freeze), calls on the kept clones through their own methods"""
+    sess = twin.sess
+    g = Gen(rng, "c17")
+    twin.step({"op": "reset"})
+    store = initial_store(rng, g.nested)
+    for lab in ("d", "m"):
+        twin.step({"op": "container", "label": lab, "value": store[lab]})
+    P = g.P
+
+    def pick(for_def):
+        return rng.choice(P)
+
+    for _ in range(rng.randint(2, 4)):
+        q = pick(True)
+        twin.step({"op": "setexpr", "path": q, "expr": g.term(q)})
+    kinds, weights = zip(*KEPT_CLONE_MIX.items())
+    nkept = 0
+    forced = []
+    for _ in range(rng.randint(5, maxops)):
+        kind = forced.pop(0) if forced else rng.choices(kinds, weights)[0]
+        if kind == "clonekeep":
+            if nkept >= 3:
+                continue
+            nkept += 1
+            op = {"op": "clonekeep"}
+        elif kind == "cloneop":
+            if not nkept:
+                continue
+            call = rng.choice(["unregister", "unregister", "set", "set", "setexpr", "load", "verify", "refresh", "cleanup"])
+            op = {"op": "cloneop", "i": rng.randrange(nkept), "call": call}
+            if call == "unregister":
+                ids = [d[1] for d in sess.mirror.defs.values()]
+                op["id"] = rng.choice(ids) if ids and rng.random() < 0.9 else rng.choice(P)
+            elif call == "set":
+                op.update(path=rng.choice(P), value=rng.randint(-6, 9))
+            elif call == "setexpr":
+                q = rng.choice(P)
+                op.update(path=q, expr=g.term(q))
+            elif call == "load":
+                q = rng.choice(P)
+                op.update(overwrite=rng.random() < 0.8, pairs=[[q, g.term(q)]])
+        else:
+            op = draw(rng, g, sess, kind, pick)
+            if op is None:
+                continue
+        twin.step(op)
+        if op["op"] == "freeze" and rng.random() < 0.6:
+            forced.append("clonekeep")
+
+
+def run_twin_history(ops, rng, hist_id, out_lines, stats, failures, maxops=18):
+    """one oracle-only history under the never-frozen twin: a fixed operation list, or (ops None) a generated one.  The
+    lines are kept away from the model comparison (the driver knows neither a kept clone nor calls on it); only when an
+    oracle fails are they written, marked `light`, so that the failing input can be shrunk and replayed"""
+    n0 = len(failures)
+    sess = Session(hist_id, stats, failures, "c17")
+    twin = NeverFrozenTwin(sess)
+    if ops is None:
+        gen_kept_clone_history(rng, twin, maxops)
+    else:
+        for op in ops:
+            twin.step(op)
+    stats["c17_never_frozen_twin_histories"] = stats.get("c17_never_frozen_twin_histories", 0) + 1
+    if len(failures) > n0:
+        for l in sess.lines:
+            out_lines.append(dict({k: v for k, v in l.items() if k not in ("impl", "order")}, light=True, impl={"exc": l["impl"]["exc"]}))
+    return sess
+
+
+# ----------------------------------------------------------------------------
+# C18 at every write position of graphs whose tasks need not be PRINTABLE (oracle only: the model has no calls, and its
+# expressions are a few levels deep): a sum as large as the recursion limit lets the library evaluate, a called object
+# without a __name__ (functools.partial, a callable instance), a constant whose repr raises
+# ----------------------------------------------------------------------------
+class _Callable:
+    """a callable object (no __name__, like the library's own FunctionPieceWiseLinear); it can be told to fail once"""
+
+    def __init__(self, factor):
+        self.factor, self.fail_with, self.raised = factor, None, None
+
+    def __call__(self, *xs):
+        if self.fail_with is not None:
+            cls, self.fail_with = self.fail_with, None
+            self.raised = cls("injected in the called function")
+            raise self.raised
+        return self.factor * sum(xs)
+
+
+class _Opaque(float):
+    """a constant that computes like a float and cannot be printed"""
+
+    def __repr__(self):
+        raise RuntimeError("this constant has no text")
+    __str__ = __repr__
+
+
+def _c18_named(*xs):
+    return 2.0 * sum(xs)
+
+
+def c18_build(spec):
+    """spec: {"inputs": {name: value}, "nodes": [[name, kind, ...]]} over ONE fault-injecting dict labelled r
+         [name, "bin", op, a, b]       r[name] = r[a] <op> (r[b] | number b)
+         [name, "sum", n, a]           r[name] = r[v0] + ... + r[v<n-1>] + r[a]        (v_i plain locations)
+         [name, "call", how, [a, ..]]  r[name] = CallRef(f, (r[a], ..), {})   how: partial | instance | lambda | named
+         [name, "opaque", a]           r[name] = r[a] * <a constant whose repr raises>"""
+    import functools
+    import xdeps
+    from xdeps.refs import CallRef
+    hub = ml.Hub()
+    init = dict(spec["inputs"])
+    for node in spec["nodes"]:
+        init[node[0]] = 0.0
+        if node[1] == "sum":
+            init.update(("v%d" % i, 1.0) for i in range(node[2]))
+    c = ml.LDict(hub, ["r"], init)
+    m = xdeps.Manager()
+    r = m.ref(c, "r")
+    callables = {}
+    for node in spec["nodes"]:
+        name, kind = node[0], node[1]
+        if kind == "bin":
+            b = r[node[4]] if isinstance(node[4], str) else node[4]
+            e = ml.BIN[node[2]](r[node[3]], b)
+        elif kind == "sum":
+            e = sum(r["v%d" % i] for i in range(node[2])) + r[node[3]]
+        elif kind == "call":
+            how = node[2]
+            f = {"partial": lambda: functools.partial(_c18_named, 0.5), "instance": lambda: _Callable(3.0),
+                 "lambda": lambda: (lambda *xs: sum(xs) - 1.0), "named": lambda: _c18_named}[how]()
+            callables[name] = f
+            e = CallRef(f, tuple(r[a] for a in node[3]), {})
+        elif kind == "opaque":
+            e = r[node[2]] * _Opaque(1.5)
+        else:
+            raise ValueError(kind)
+        r[name] = e
+    hub.trace = []
+    return m, r, c, hub, callables
+
+
+def _c18_assign(r, assign):
+    if assign[0] == "value":
+        r[assign[1]] = assign[2]
+    else:
+        r[assign[1]] = r[assign[2]] * assign[3]
+
+
+def _c18_view(m, r, names):
+    """definitions and query answers, read structurally (the expressions need not be printable)"""
+    P = lambda ref: pkey(ml.path_of_ref(ref))
+    defs = sorted([P(tid), type(t).__name__, sorted(map(P, t.dependencies)), sorted(map(P, t.targets))] for tid, t in m.tasks.items())
+    qs = {}
+    for k in names:
+        ref = r[k]
+        row = []
+        for ask in (lambda: [P(t) for t in m.find_taskids(ref._get_dependencies())], lambda: sorted(P(x) for x in m.find_deps([ref])),
+                    lambda: type(ref._expr).__name__):
+            try:
+                row.append(ask())
+            except Exception as e:
+                row.append("raises " + type(e).__name__)
+        qs[k] = row
+    return defs, qs
+
+
+def c18_crash_points(spec, assign, what, hist_id, stats, failures, exc_names=("Fault", "KeyError", "RuntimeError"), attempts=(1, 2), only=None):
+    """C18 for ONE update of one graph: a fault at every write position (the k-th container write raises; the initial write
+    of the assigned location is position 0) and in every called object, `attempts` faulty attempts in a row, then the
+    fault-free repeat.  Judged against the fault-free twin: the caller receives THE injected exception; the writes made are
+    the fault-free prefix; definitions and query answers are those of the fault-free history; verify() passes; the repeat
+    leaves the containers as the fault-free history does.  `only`: the locations whose write fails (default: every one).
+    Returns False at the first failure (recorded)."""
+    import io, contextlib
+
+    def state(c):
+        return sorted((k, "nan" if is_nan(v) else v) for k, v in c.items() if not (k[0] == "v" and k[1:].isdigit()))
+
+    def report(kind, detail):
+        failures.append({"property": "C18", "kind": kind, "hist": hist_id, "op_index": 0,
+                         "detail": dict({"scenario": what, "graph": spec, "assignment": assign}, **detail), "known": None})
+        return False
+
+    names = list(spec["inputs"]) + [n[0] for n in spec["nodes"]]
+    m0, r0, c0, hub0, calls0 = c18_build(spec)
+    try:
+        _c18_assign(r0, assign)
+    except Exception:
+        return True          # not an update of this graph that works without a fault: nothing to judge
+    ref_trace = [e[1][-1][1] for e in hub0.trace]
+    ref_state, (ref_defs, ref_qs) = state(c0), _c18_view(m0, r0, names)
+    points = [("write", k, en) for k in range(len(ref_trace)) for en in exc_names if only is None or ref_trace[k] in only]
+    points += [("call", name, en) for name, f in calls0.items() if isinstance(f, _Callable) and name in ref_trace for en in exc_names[:2]]
+    for where, k, en in points:
+        for na in attempts:
+            m, r, c, hub, calls = c18_build(spec)
+            at = {"fault": where, "at": k if where == "call" else {"write": k, "location": ref_trace[k]}, "exception_class": en,
+                  "faulty_attempts": na}
+            for attempt in range(na):
+                hub.trace, hub.last_fault, hub.fault_in, hub.fault_exc = [], None, None, en
+                if where == "write":
+                    hub.fault_in = k
+                    prefix = ref_trace[:k]
+                else:
+                    calls[k].fail_with = {"Fault": ml.Fault, "KeyError": KeyError, "RuntimeError": RuntimeError}.get(en, ml.Fault)
+                    prefix = ref_trace[:ref_trace.index(k)]
+                got = None
+                try:
+                    _c18_assign(r, assign)
+                except BaseException as e:
+                    got = e
+                injected = hub.last_fault if where == "write" else calls[k].raised
+                hub.fault_in = None
+                stats["c18_crash_points_unprintable_family"] = stats.get("c18_crash_points_unprintable_family", 0) + 1
+                if got is None:
+                    return report("fault-swallowed-or-changed", dict(at, caller_received="no exception"))
+                if got is not injected:
+                    return report("caller-receives-another-exception",
+                                  dict(at, caller_received="%s(%s)" % (type(got).__name__, str(got)[:80]), injected=repr(injected)[:80]))
+                wrote = [e[1][-1][1] for e in hub.trace]
+                if wrote != prefix:
+                    return report("not-a-prefix", dict(at, written=wrote[:12], fault_free_prefix=prefix[:12]))
+                defs, qs = _c18_view(m, r, names)
+                if defs != ref_defs:
+                    return report("definitions-changed-by-failed-update", at)
+                if qs != ref_qs:
+                    return report("queries-changed-by-failed-update", dict(at, differing=[q for q in qs if qs[q] != ref_qs[q]][:5]))
+                try:
+                    with contextlib.redirect_stdout(io.StringIO()):
+                        m.verify()
+                except Exception as e:
+                    return report("verify-after-fault", dict(at, exc=type(e).__name__))
+            hub.trace = []
+            try:
+                _c18_assign(r, assign)
+            except Exception as e:
+                return report("repeat-raises", dict(at, exc=type(e).__name__))
+            if state(c) != ref_state:
+                return report("stale-after-repeat", dict(at, wrong=[k2 for (k2, v), (_, w) in zip(state(c), ref_state) if not same(v, w)][:6]))
+            if _c18_view(m, r, names) != (ref_defs, ref_qs):
+                return report("definitions-changed-by-failed-update", dict(at, after="the fault-free repeat"))
+    return True
+
+
+def c18_largest_sum(spec_of, assign, hi=4096):
+    """the largest number of terms (up to hi) for which the library builds and updates the graph at the recursion limit in
+    force, found by bisection; 16 terms of slack for the few frames by which the call depth of the scenarios differs"""
+    def works(n):
+        try:
+            m, r, c, hub, _ = c18_build(spec_of(n))
+            _c18_assign(r, assign)
+            return True
+        except RecursionError:
+            return False
+    lo, hi = 8, min(hi, sys.getrecursionlimit())       # (interpreted, every term costs at least one frame)
+    if not works(lo):
+        return 0
+    if works(hi):
+        return hi
+    while hi - lo > 24:
+        mid = (lo + hi) // 2
+        if works(mid):
+            lo = mid
+        else:
+            hi = mid
+    return max(8, lo - 16)
+
+
+def scenario_c18_unprintable(hist_id, stats, failures):
+    """fixed shapes: a diamond x -> a -> {tot, b} -> z whose `tot` sums 5 terms / as many terms as can be evaluated at the
+    recursion limit in force / 1200 terms (once, under a raised limit); chains through a functools.partial, a callable
+    instance (which can itself raise), a lambda; a constant without a text.  Value and expression assignments."""
+    diamond = lambda n: {"inputs": {"x": 1.0, "p": 1.5},
+                         "nodes": [["a", "bin", "Mul", "x", 2], ["tot", "sum", n, "a"], ["b", "bin", "Add", "a", 1],
+                                   ["z", "bin", "Add", "tot", "b"]]}
+    value, expression = ["value", "x", 5.0], ["expression", "x", "p", 4]
+    ok = True
+    for how in ("partial", "instance", "lambda", "named"):
+        spec = {"inputs": {"x": 1.0, "p": 1.5}, "nodes": [["y", "call", how, ["x"]], ["w", "bin", "Add", "y", 1], ["u", "call", how, ["w", "p"]]]}
+        for assign in (value, expression):
+            ok = ok and c18_crash_points(spec, assign, "y = <%s>(x); w = y + 1; u = <%s>(w, p)" % (how, how), hist_id, stats, failures)
+    spec = {"inputs": {"x": 1.0, "p": 1.5}, "nodes": [["a", "bin", "Mul", "x", 2], ["q", "opaque", "a"], ["t", "bin", "Sub", "q", "p"]]}
+    ok = ok and c18_crash_points(spec, value, "q = a * <constant whose repr raises>", hist_id, stats, failures)
+    ok = ok and c18_crash_points(diamond(5), value, "tot sums 5 variables", hist_id, stats, failures)
+    nmax = c18_largest_sum(diamond, value)
+    stats["c18_largest_sum_terms"] = max(stats.get("c18_largest_sum_terms", 0), nmax)
+    for n, assign, en, att in ((nmax, value, "Fault", (1, 2)), ((3 * nmax) // 4, expression, "KeyError", (1,))):
+        if n > 8:
+            ok = ok and c18_crash_points(diamond(n), assign, "tot sums %d variables (recursion limit %d)" % (n, sys.getrecursionlimit()),
+                                         hist_id, stats, failures, exc_names=(en,), attempts=att)
+    old = sys.getrecursionlimit()
+    try:
+        sys.setrecursionlimit(max(old, 2800))
+        if ok and c18_largest_sum(diamond, value, hi=1300) >= 1200:
+            stats["c18_largest_sum_terms"] = max(stats["c18_largest_sum_terms"], 1200)
+            c18_crash_points(diamond(1200), value, "tot sums 1200 variables (recursion limit %d)" % sys.getrecursionlimit(),
+                             hist_id, stats, failures, exc_names=("RuntimeError",), attempts=(1,), only=("tot", "z"))
+    finally:
+        sys.setrecursionlimit(old)
+    stats["c18_unprintable_scenarios"] = stats.get("c18_unprintable_scenarios", 0) + 1
+
+
+def random_c18_graph(rng, big):
+    """a random acyclic graph over the node kinds of c18_build (each node reads earlier names only), and one assignment"""
+    names = ["x", "p"]
+    nodes = []
+    for i in range(rng.randint(3, 7)):
+        name = "n%d" % i
+        x = rng.random()
+        src = lambda: rng.choice(names[-3:] if rng.random() < 0.7 else names)
+        if x < 0.5:
+            nodes.append([name, "bin", rng.choice(["Add", "Sub", "Mul"]), src(), src() if rng.random() < 0.5 else rng.randint(-2, 3)])
+        elif x < 0.8:
+            nodes.append([name, "call", rng.choice(["partial", "instance", "instance", "lambda", "named"]), [src() for _ in range(rng.randint(1, 2))]])
+        elif x < 0.93:
+            nodes.append([name, "sum", rng.choice([3, 40, big]) if big else rng.choice([3, 40]), src()])
+            big = 0
+        else:
+            nodes.append([name, "opaque", src()])
+        names.append(name)
+    assign = rng.choice([["value", "x", float(rng.randint(-5, 8))], ["value", "p", float(rng.randint(-5, 8))], ["expression", "x", "p", rng.randint(2, 4)]])
+    return {"inputs": {"x": 1.0, "p": 1.5}, "nodes": nodes}, assign
+
+
+# ----------------------------------------------------------------------------
+# C13 with several managers alive (oracle only): containers with the same labels and different objects, setters generated
+# in interleaved order, each called AFTER the other managers' setters were generated
+# ----------------------------------------------------------------------------
+def c13_many_managers(programs, schedule, what, hist_id, stats, failures):
+    """programs: one operation list per manager (a generated setter inside a program is replaced by its assignments);
+    schedule: ["gen", fname, manager index, [paths]] | ["call", fname, [values]].  Every manager has a twin built from the
+    same operations that is only ever assigned through refs; after every call ALL managers' containers must equal their
+    twins' (the called setter's manager changed as by the assignments, every other manager not at all).
+    Returns "checked" | "failed" | "out-of-scope" (division by zero / NaN / declared cycle: excluded by the property)."""
+    ims, tws = [], []
+    for ops in programs:
+        pair = []
+        for _ in (0, 1):
+            im = ml.ImplMgr()
+            for o in ops:
+                if o["op"] == "genfun":
+                    for pth, v in o["args"]:
+                        im.apply({"op": "set", "path": pth, "value": v})
+                elif o["op"] != "fault":
+                    im.apply({k: v for k, v in o.items() if not k.startswith("_")})
+            pair.append(im)
+        ims.append(pair[0])
+        tws.append(pair[1])
+    nan_in = lambda im: '"nan"' in json.dumps(im.store_json())
+    if any(nan_in(im) for im in ims):
+        return "out-of-scope"
+    funs = {}
+
+    def report(kind, si, detail):
+        failures.append({"property": "C13", "kind": kind, "hist": hist_id, "op_index": 0,
+                         "detail": dict({"scenario": what, "managers": programs, "schedule_up_to_the_failure": schedule[:si + 1]}, **detail),
+                         "known": None})
+        return "failed"
+
+    for si, st in enumerate(schedule):
+        if st[0] == "gen":
+            _, name, i, paths = st
+            T, D = declared(ims[i])
+            trig = set()
+            for p in paths:
+                trig |= triggered_set(T, D, p)
+            if has_two_cycle(T, D, trig):
+                return "out-of-scope"
+            try:
+                kw = {"x%d" % j: ims[i].ref(p) for j, p in enumerate(paths)}
+                src = ims[i].m.mk_fun("f", **kw)       # every setter has the same Python name: `name` is the schedule's key only
+                funs[name] = (i, paths, ims[i].m.gen_fun("f", **kw), src)
+            except Exception as e:
+                return report("generated-function-raises", si, {"exc": type(e).__name__, "while": "generating"})
+            continue
+        _, name, values = st
+        i, paths, f, src = funs[name]
+        exc = "ok"
+        try:
+            f(*values)
+        except ZeroDivisionError:
+            return "out-of-scope"
+        except Exception as e:
+            exc = type(e).__name__
+        bad = False
+        for p, v in zip(paths, values):
+            bad = tws[i].apply({"op": "set", "path": p, "value": v})["impl"]["exc"] != "ok" or bad
+        if bad or any(nan_in(x) for x in ims + tws) or (exc == "NameError" and ("nan" in src or "inf" in src)):
+            return "out-of-scope"
+        if exc != "ok":
+            return report("generated-function-raises", si, {"exc": exc, "source": src.split("\n")[:12]})
+        for j in range(len(ims)):
+            a, b = ml.canon_val(ims[j].store_json()), ml.canon_val(tws[j].store_json())
+            if a != b:
+                return report("function-differs-from-assignments" if j == i else "function-writes-into-another-manager", si,
+                              {"setter_of_manager": i, "differing_manager": j, "differing_locations": leaf_diff(a, b)[:8]})
+        stats["c13_calls_with_several_managers_alive"] = stats.get("c13_calls_with_several_managers_alive", 0) + 1
+    return "checked"
+
+
+def scenario_c13_interleaved(hist_id, stats, failures):
+    X, Y, W_, Z = (["d", ["i", k]] for k in "xywz")
+    NU, NV, L0, L1 = ["d", ["i", "n"], ["i", "u"]], ["d", ["i", "n"], ["i", "v"]], ["d", ["i", "l"], ["i", 0]], ["d", ["i", "l"], ["i", 1]]
+    OA, OB = ["m", ["i", "o"], ["a", "a"]], ["m", ["i", "o"], ["a", "b"]]
+    R, B, M = (lambda p: ["ref", p]), (lambda op, a, b: ["bin", op, a, b]), (lambda v: ["lit", v])
+    E = lambda p, t: {"op": "setexpr", "path": p, "expr": t}
+
+    def model(x0, defs):
+        return [{"op": "reset"},
+                {"op": "container", "label": "d", "value": {"d": [["x", x0], ["y", 0], ["w", 0], ["z", 0], ["n", {"d": [["u", 2], ["v", 0]]}], ["l", {"l": [0, 0]}]]}},
+                {"op": "container", "label": "m", "value": {"d": [["o", {"o": [["a", 0], ["b", 0]]}]]}}] + defs
+    p1 = model(1, [E(Y, B("Mul", R(X), M(2))), E(W_, B("Add", R(Y), M(1))), E(NV, B("Add", R(NU), R(X))), E(L1, B("Sub", R(W_), R(NV))), E(OA, B("Mul", R(L1), R(Y)))])
+    p2 = model(4, [E(Y, B("Mul", R(X), M(5))), E(W_, B("Sub", R(Y), M(3))), E(NV, B("Mul", R(NU), R(X))), E(L0, B("Add", R(Y), R(NV))), E(OB, B("Sub", R(L0), R(W_)))])
+    p3 = model(-2, [E(Z, B("Sub", M(10), R(X))), E(Y, B("Add", R(Z), R(NU))), E(OA, B("Mul", R(Y), R(Y)))])
+    # the dumped definitions of p1 loaded into a second manager over containers of its own (the re-loaded counterpart)
+    p1_loaded = model(1, [{"op": "load", "overwrite": True, "pairs": [[o["path"], o["expr"]] for o in p1[3:]]}, {"op": "set", "path": X, "value": 1},
+                          {"op": "set", "path": NU, "value": 2}])
+    runs = [
+        ("two models with the same labels, each setter called after the other's was generated", [p1, p2],
+         [["gen", "f1", 0, [X, NU]], ["gen", "f2", 1, [X]], ["call", "f1", [3, -1]], ["call", "f2", [6]], ["call", "f1", [5, 4]], ["call", "f2", [-3]]]),
+        ("three models, generation and calls interleaved, a second setter for the first model", [p1, p2, p3],
+         [["gen", "a", 0, [X]], ["gen", "b", 1, [NU, X]], ["gen", "c", 2, [X, NU]], ["call", "a", [9]], ["gen", "a2", 0, [NU]], ["call", "b", [3, 2]],
+          ["call", "c", [1, 1]], ["call", "a2", [6]], ["call", "a", [-4]], ["call", "b", [0, 5]]]),
+        ("a model and a second one built by the same script", [p1, p1],
+         [["gen", "f1", 0, [X]], ["gen", "f2", 1, [X]], ["call", "f1", [8]], ["call", "f2", [9]], ["call", "f1", [2]]]),
+        ("a model and its dumped-and-reloaded counterpart", [p1, p1_loaded],
+         [["gen", "f1", 0, [X, NU]], ["gen", "f2", 1, [NU]], ["call", "f1", [8, 3]], ["call", "f2", [5]], ["call", "f1", [2, 2]]]),
+    ]
+    for what, programs, schedule in runs:
+        res = c13_many_managers(programs, schedule, what, hist_id, stats, failures)
+        stats["c13_interleaved_scenarios:" + res] = stats.get("c13_interleaved_scenarios:" + res, 0) + 1
+        if res == "failed":
+            return
+
+
+_C13_PREVIOUS = []
+
+
+def c13_cross_history(sess, stats, failures):
+    """random branch of the same: the manager of the previous random history and the one of this history (same labels d / m,
+    containers of their own), a setter for each, generated one after the other and then called in turn"""
+    import random as _random
+    blk = sess.blocked(False)
+    free = [q for q in sess.P if pkey(q) not in sess.mirror.defs and not any(comparable(q, b) for b in blk)]
+    mine = None
+    if free and not sess.frozen and not sess.mirror.dataflow_cyclic() and not sess.mirror.overlapping_targets():
+        mine = ([strip_op(l) for l in sess.lines], free)
+    prev = _C13_PREVIOUS.pop() if _C13_PREVIOUS else None
+    if mine is not None:
+        _C13_PREVIOUS.append(mine)
+    if mine is None or prev is None:
+        return
+    r2 = _random.Random(sess.hist_id * 31 + len(sess.lines))
+    args = [r2.sample(fr, min(len(fr), r2.randint(1, 2))) for _, fr in (prev, mine)]
+    vals = lambda k: [r2.randint(-6, 9) for _ in args[k]]
+    order = [0, 1] if r2.random() < 0.7 else [1, 0]
+    schedule = [["gen", "f%d" % k, k, args[k]] for k in order] + [["call", "f%d" % k, vals(k)] for k in order + order[:1]]
+    res = c13_many_managers([prev[0], mine[0]], schedule, "two consecutive random histories", 500 + sess.hist_id % 400, stats, failures)
+    stats["c13_cross_history:" + res] = stats.get("c13_cross_history:" + res, 0) + 1
+
+
 def run_history(rng, family, hist_id, out_lines, stats, failures, maxops):
     sess = Session(hist_id, stats, failures, family)
     gen_history(rng, family, sess, maxops)
@@ -1154,6 +1764,7 @@ def run_history(rng, family, hist_id, out_lines, stats, failures, maxops):
             if last and rng.random() < 0.6 and all(q in free for q in last):
                 args = last
             sess.step({"op": "genfun", "args": [[q, rng.randint(-6, 9)] for q in args]})
+        c13_cross_history(sess, stats, failures)
     if family in ("c03", "c11") and not sess.frozen:
         try:
             twin_check(rng, sess.im, sess.mirror, sess.P, sess.fail, stats, hist_id,
@@ -1166,6 +1777,8 @@ def run_history(rng, family, hist_id, out_lines, stats, failures, maxops):
 
 
 def replay_ops(ops, hist_id, stats, failures, family="c01"):
+    if family == "c17" and any(o.get("op") in ("clonekeep", "cloneop") for o in ops):
+        return run_twin_history(ops, None, hist_id, [], stats, failures)     # an oracle-only history (replay / shrinking)
     sess = Session(hist_id, stats, failures, family)
     for op in ops:
         sess.step(op)
@@ -1376,6 +1989,7 @@ def main():
             stats["histories"] += 1
     if a.corpus and a.family == "c13":
         scenario_c13_container(hid, stats, failures); hid += 1
+        scenario_c13_interleaved(hid, stats, failures); hid += 1
         for ops in c13_corpus():
             sess = replay_ops(ops, hid, stats, failures, a.family)
             lines.extend(sess.lines)
@@ -1383,6 +1997,10 @@ def main():
             stats["histories"] += 1
     elif a.corpus and a.family == "c17":
         scenario_two_managers(hid, stats, failures); hid += 1
+        for ops in list(c17_kept_clone_corpus()) + list(c17_corpus()) + list(collision_corpus_frozen()):
+            run_twin_history(ops, None, hid, lines, stats, failures)      # oracle only: the never-frozen twin
+            hid += 1
+            stats["histories"] += 1
         for ops in list(c17_corpus()) + list(collision_corpus_frozen()):
             sess = replay_ops(ops, hid, stats, failures, a.family)
             lines.extend(sess.lines)
@@ -1395,6 +2013,8 @@ def main():
             hid += 1
             stats["histories"] += 1
         scenario_two_managers(hid, stats, failures); hid += 1
+        if a.family == "c18":
+            scenario_c18_unprintable(hid, stats, failures); hid += 1
         scenario_lookalike_replacement(hid, stats, failures); hid += 1
         scenario_d1(hid, lines, stats, failures); hid += 1
         scenario_d8(hid, stats, failures); hid += 1
@@ -1403,6 +2023,20 @@ def main():
     for i in range(a.n):
         run_history(rng, a.family, 1000 + i, lines, stats, failures, a.maxops)
         stats["histories"] += 1
+    # oracle-only random branches, each with a PRNG of its own (the histories above are what they were)
+    if a.family == "c17" and a.n:
+        rng2 = random.Random(a.seed * 7919 + 17)
+        for i in range(max(2, a.n // 8)):
+            run_twin_history(None, rng2, 100000 + i, lines, stats, failures, a.maxops)
+            stats["histories"] += 1
+    if a.family == "c18" and a.n:
+        rng2 = random.Random(a.seed * 7919 + 18)
+        nbig = c18_largest_sum(lambda n: {"inputs": {"x": 1.0, "p": 1.5}, "nodes": [["n0", "sum", n, "x"]]}, ["value", "x", 2.0])
+        for i in range(max(2, a.n // 8)):
+            spec, assign = random_c18_graph(rng2, nbig if i % 4 == 0 else 0)
+            c18_crash_points(spec, assign, "random graph", 600 + i % 300, stats, failures, exc_names=(rng2.choice(["Fault", "KeyError", "RuntimeError", "StopIteration", "AttributeError"]),),
+                             attempts=(rng2.randint(1, 2),))
+            stats["c18_random_graphs_with_unprintable_tasks"] = stats.get("c18_random_graphs_with_unprintable_tasks", 0) + 1
     with open(a.out + ".ops.jsonl", "w") as f:
         for ln in lines:
             f.write(json.dumps(ln) + "\n")
